@@ -46,8 +46,8 @@ func gschemaCoq(types *federation.SchemaWithFederationInfo, c *Case) schemaInfo 
 	var objs []*graphql.Object
 	var unions []*graphql.Union
 	for t, name := range all {
-		if strings.HasPrefix(name, "__") {
-			continue
+		if strings.HasPrefix(name, "__") || name == "Federation" {
+			continue // introspection types and the Federation plumbing object: never visited for a user query
 		}
 		switch x := t.(type) {
 		case *graphql.Object:
